@@ -604,7 +604,7 @@ def rejoinState : State := (runActs State.init rejoinActs).getD State.init
 theorem rejoin_reach : Reach rejoinState := reach_of_acts rejoinActs (by decide)
 
 /-- The new subscriber cannot overtake the pending callback of the closed one: it takes nothing before the
-closed one has finished (in the code before commit a646ba6 `take 1` was enabled here and the listener received
+closed one has finished (in the code before commit f4b47ff `take 1` was enabled here and the listener received
 message 1 before message 0). -/
 theorem C20_new_subscriber_waits :
     (rejoinState.sub 0).pending = some 1 ∧ (rejoinState.sub 1).chan = [1] ∧
